@@ -87,10 +87,9 @@ CLASS_EXTRUDE_MUT = 'extrude-mutates-operand'                # C11 (model follow
 CLASS_CTOR_GAP = 'constructor-accepts-non-periodic-knot-vector'   # C08
 CLASS_LOWER_WEIGHTS = 'lower-order-nonpositive-weights'
 CLASS_MAKEPER_SHORT = 'make-periodic-short-direction-shape-mismatch'   # fewer than order+continuity functions
-# BSplineBasis(p, knots, k) with 2p <= len(knots) < p+k+1 (only possible for k >= p-1): the periodic test indexes
-# knots[-p-k-1+i] outside the array -> IndexError, where the property demands ValueError.  The model `Basis.mk?`
-# reads those positions with a default (`getD`) and answers ok / ValueError.
-CLASS_CTOR_INDEXERROR = 'constructor-indexerror-short-periodic'
+# BSplineBasis(p, knots, k) with 2p <= len(knots) < p+k+1 (only possible for k >= p-1): rejected with ValueError
+# (`if n < p + k + 1` in front of the periodic comparison, `Basis.CtorShortPeriodic` in the model) since the repair of
+# finding `constructor-indexerror-short-periodic`; the pinned code ran the comparison off the list (IndexError).
 # periodic insert_knot into a basis with n < p+k functions: on the PINNED code the ghost-knot repair reads knots it has
 # already overwritten; for the smallest bases this breaks the knot structure itself (ghost knots, weights 0), not only
 # the geometry.  The Lean model mirrors that repair loop statement by statement, so this label is given ONLY when the
@@ -1041,8 +1040,9 @@ def _ctor_cases(rng, n):
     # periodicity k >= p-1 (outside the admissible range k <= p-2): vectors shorter than p+k+1 (the periodic test runs
     # off the array: IndexError in the pinned code) and long enough ones (uniform: accepted although k > p-2; else rejected)
     for p, k, m in [(2, 5, 4), (2, 1, 4), (3, 2, 6), (3, 4, 7), (2, 2, 5), (4, 3, 8), (1, 0, 2), (1, 1, 2), (2, 3, 5)]:
-        add('short-periodic', p, [float(x) for x in range(m)] if rng.random() < 0.5 else sorted(gen.increasing(rng, m)), k, 'by-definition')
-    add('short-periodic', 2, [0, 0, 1, 1], 5, 'by-definition')
+        add('short-periodic', p, [float(x) for x in range(m)] if rng.random() < 0.5 else sorted(gen.increasing(rng, m)), k,
+            'reject' if m < p + k + 1 else 'by-definition')
+    add('short-periodic', 2, [0, 0, 1, 1], 5, 'reject')
     for p, k in [(2, 1), (3, 2), (2, 3), (3, 4), (1, 0), (4, 3)]:
         m = p + k + 1 + rng.randint(0, 3)
         m = max(m, 2 * p)
@@ -1482,13 +1482,8 @@ def oracle(sp, s):
 def classify(s, res=None):
     if s['kind'] == 'ctor':
         p, k, m = s['order'], max(s['periodic'], -1), len(s['knots'])
-        if p >= 1 and k >= 0 and 2 * p <= m < p + k + 1 and p + k - 1 >= 1:
-            # the only way the periodic test can leave the array; judged by the messages: an IndexError of the real code
-            iv = (res or {}).get('impl')
-            orc = ' '.join((res or {}).get('oracle') or [])
-            if (isinstance(iv, Err) and iv.kind == 'IndexError') or 'raised IndexError' in orc:
-                return CLASS_CTOR_INDEXERROR
-            return None
+        if p >= 1 and k >= 0 and 2 * p <= m < p + k + 1:
+            return None      # too short for the periodic comparison: a plain reject (ValueError), no known class
         return CLASS_CTOR_GAP if s['cls'] == 'gap' or (s['expect'] == 'by-definition' and s['periodic'] >= 0) else None
     try:
         r = _cached_run(_sp(), s)
